@@ -3,6 +3,7 @@
 package exec
 
 import (
+	"time"
 	"bytes"
 	"errors"
 	"io"
@@ -13,6 +14,9 @@ import (
 )
 
 var ErrNotFound = errors.New("executable file not found in $PATH")
+
+// ErrWaitDelay as in os/exec (Go 1.20).
+var ErrWaitDelay = simrt.ErrWaitDelay
 
 // ProcessState mirrors os.ProcessState for the parts code can observe.
 type ProcessState struct {
@@ -63,6 +67,7 @@ type Cmd struct {
 	Stderr       io.Writer
 	ProcessState *ProcessState
 	Process      *Process
+	WaitDelay    time.Duration // as in os/exec (Go 1.20): how long to wait for children holding the output pipe
 	started      bool
 	out          []byte
 	err          error
@@ -127,7 +132,13 @@ func (c *Cmd) execMode(collecting bool) ([]byte, error) {
 	if c.Dir != "" {
 		simrt.S.HarnessFail("exec with Cmd.Dir is not modelled")
 	}
-	out, err := simrt.S.Shell.ExecMode(c.script(), c.viaPipe(collecting))
+	var out []byte
+	var err error
+	if c.WaitDelay > 0 && c.viaPipe(collecting) {
+		out, err = simrt.S.Shell.ExecDelay(c.script(), int64(c.WaitDelay))
+	} else {
+		out, err = simrt.S.Shell.ExecMode(c.script(), c.viaPipe(collecting))
+	}
 	c.ProcessState = &ProcessState{}
 	if ee, ok := err.(*simrt.ExitError); ok {
 		c.ProcessState = &ProcessState{code: ee.Code, signal: ee.Signal}
